@@ -4,11 +4,12 @@
 # Prints one line per property: CAUGHT / MISSED / BROKEN(exit code), keeps replays in <out-dir>.
 HERE="$(cd "$(dirname "$0")/.." && pwd)"
 PATCH="$1"; OUT="$2"; shift 2
+REPO="${REPO:-/repo}"
 mkdir -p "$OUT"
-if ! git -C /repo apply --check "$PATCH" 2>/dev/null; then echo "PATCH-DOES-NOT-APPLY $PATCH"; exit 3; fi
-if [ -n "$(git -C /repo status --porcelain)" ]; then echo "/repo is dirty; refusing"; exit 3; fi
-git -C /repo apply "$PATCH"
-trap 'git -C /repo checkout -- . ; git -C /repo clean -fdq -- client server protocol standard tools 2>/dev/null' EXIT INT TERM
+if ! git -C "$REPO" apply --check "$PATCH" 2>/dev/null; then echo "PATCH-DOES-NOT-APPLY $PATCH"; exit 3; fi
+if [ -n "$(git -C "$REPO" status --porcelain)" ]; then echo "$REPO is dirty; refusing"; exit 3; fi
+git -C "$REPO" apply "$PATCH"
+trap 'git -C "$REPO" checkout -- . ; git -C "$REPO" clean -fdq -- client server protocol standard tools 2>/dev/null' EXIT INT TERM
 for P in "$@"; do
   VERIF_REPLAY_DIR="$OUT/replays" VERIF_EVIDENCE_DIR="$OUT/evidence" "$HERE/dst.sh" check "$P" --tier "${TIER:-quick}" > "$OUT/$P.log" 2>&1
   rc=$?
